@@ -169,6 +169,8 @@ impl FileManager {
                     .create(true)
                     .truncate(false)
                     .open(file_name)?;
+                // without LEN= (which arrives as 0) a random-access record is 128 bytes long
+                let rec_len = if rec_len == 0 { 128 } else { rec_len };
                 self.handle_map
                     .insert(handle, FileInfo::new_random(file, rec_len));
             }
